@@ -38,9 +38,11 @@ NOTES = ["the oracle never consults the model: a violation is a pair of runs of 
          "baseline run >= 1.1 s later; on the pid by any two runs; on hash-map order by the two random seeds",
          "programs that read data files do so through absolute paths; a relative io::file path is resolved against the "
          "working directory by design and is outside the property",
-         "inputs with the same file stem compile to the same output path (<out-dir>/<stem>.pcap): the later one "
-         "overwrites (or, failing, deletes) the earlier one's output.  C13_batch_outputs is stated for pairwise "
-         "distinct output paths; the check observes the collision (dist.same_stem_inputs) and reports it in NOTES only",
+         "inputs that map to the same output path (same file stem in two directories, the same -o name twice): the first is "
+         "compiled, every later one is refused ('output file <out> is already used by another input'), exit status 1 "
+         "(D27); an input without a file name ('..') is refused too (D28).  Modelled in Interp/Batch.v (b_used) and "
+         "checked by the oracle shared_output (class batch:shared-output-path): first input reported and its output "
+         "byte-identical to compiling it alone, with and without -k, first ok / first failing, later ok / later failing",
          "C13_unused_binding / C13_unused_binding_run are pinned from the C14 development (Proofs/C14/Unused.v "
          "unused_plain_let_irrelevant, RunLevel.v run_unused_let): statement-list level, any library",
          "partial output kept by -k after an error: a statement is reduced when the token AFTER its ';' is fed and executed at the "
@@ -778,24 +780,109 @@ def batches(ctx, d, ps, base):
             x = r.choice(oks)
             run_batch("same-file-after-others", r.sample([p for p in oks if p is not x], min(3, len(oks) - 1)) + [x])
             run_batch("same-file-first", [x] + r.sample([p for p in oks if p is not x], min(3, len(oks) - 1)))
-    # observation: two inputs with the same stem share an output path
-    if len(oks) >= 2:
-        a, b = oks[0], oks[1]
-        da, db, oc = os.path.join(d, "stemA"), os.path.join(d, "stemB"), os.path.join(d, "out_stem")
-        for x in (da, db, oc):
-            os.makedirs(x, exist_ok=True)
-        open(os.path.join(da, "same.rsyn"), "w").write(a["text"])
-        open(os.path.join(db, "same.rsyn"), "w").write(b["text"])
-        rc, res, so = invoke([(os.path.join(da, "same.rsyn"), os.path.join(da, "same.rsyn"), os.path.join(oc, "same.pcap")),
-                              (os.path.join(db, "same.rsyn"), os.path.join(db, "same.rsyn"), os.path.join(oc, "same.pcap"))],
-                             outdir=oc, cwd=oc, env=base_env())
-        ctx.dist["same_stem_inputs"] = {
-            "command": "resynth --out-dir out stemA/same.rsyn stemB/same.rsyn", "rc": rc,
-            "both_report_ok": [x["status"] for x in res] == ["ok", "ok"],
-            "output_is_first_inputs": res[0]["sha"] == alone[a["name"]]["sha"],
-            "output_is_second_inputs": res[0]["sha"] == alone[b["name"]]["sha"],
-            "note": "one output path for two inputs: outside C13_batch_outputs (NoDup of output paths)"}
+    if oks:
+        for k in range(3 if ctx.thorough else 1):
+            a = r.choice(oks)
+            b = r.choice([p for p in oks if p is not a] or oks)
+            f = r.choice(bad) if bad else None
+            shared_output(ctx, d, a, b, f)
     return alone
+
+
+REFUSED = "IN: error: process_file: output file %s is already used by another input"
+
+
+def shared_output(ctx, d, a, b, f):
+    """two inputs that map to one output path (same stem in two directories; the same -o name twice): the first is
+    compiled as if alone, every later one is refused with a diagnostic, the first one's output is left alone, exit 1.
+    a, b: programs that compile; f: a failing program (or None)"""
+    cnt = ctx.dist.setdefault("shared_output_path_scenarios", {})
+    root = os.path.join(d, "shared")
+    shutil.rmtree(root, ignore_errors=True)
+    da, db, dc, oc = (os.path.join(root, x) for x in ("dirA", "dirB", "dirC", "out"))
+    for x in (da, db, dc, oc):
+        os.makedirs(x)
+
+    def put(dirn, name, p):
+        pth = os.path.join(dirn, name + ".rsyn")
+        with open(pth, "wb") as fh:
+            fh.write(p["text"].encode("utf-8"))
+        return pth
+
+    def alone_of(p, keep):
+        pth = put(dc, "alone", p)
+        o = os.path.join(oc, "alone.pcap")
+        rc, res, so = invoke([(pth, pth, o)], outdir=oc, cwd=oc, env=base_env(), keep=keep)
+        return dict(res[0], rc=rc)
+
+    def scenario(name, members, keep, use_o=False, extra_first=None):
+        """members: [(program, dir, stem)], all mapped to out/<stem>.pcap (or to explicit -o names = out/<stem>.cap)"""
+        for o in os.listdir(oc):
+            os.unlink(os.path.join(oc, o))
+        ins, outs = [], []
+        for p, dirn, stem in members:
+            pth = put(dirn, stem if not use_o else "%s_%d" % (stem, len(ins)), p)
+            o = os.path.join(oc, stem + (".cap" if use_o else ".pcap"))
+            ins.append((pth, pth, o))
+            outs.append(o)
+        rc, res, so = invoke(ins, outs=outs if use_o else None, outdir=None if use_o else oc, cwd=oc, env=base_env(), keep=keep)
+        ctx.count("batch:shared-output:" + name)
+        cnt[name] = cnt.get(name, 0) + 1
+        rp = {"programs": {"%s/%s" % (os.path.basename(dirn), stem): p["text"] for p, dirn, stem in members}, "scenario": name,
+              "keep": keep, "explicit_o": use_o, "stdout": so[-1500:], "rc": rc, "class_hint": "batch:shared-output-path",
+              "a": a["text"], "b": b["text"], "f": f["text"] if f else None,
+              "how": "put the programs into files with the same stem in different directories (or give the same -o name twice) "
+                     "and compile them on one command line"}
+        seen = {}
+        problems = []
+        for k, ((p, dirn, stem), g) in enumerate(zip(members, res)):
+            o = outs[k]
+            shown = o if use_o else os.path.join(oc, stem + ".pcap")
+            if o not in seen:
+                seen[o] = (p, g)
+                al = alone_of(p, keep)
+                w = same(dict(al, lines=[l for l in al["lines"]]), dict(g, sha=g["sha"]))
+                # the output file may have been replaced by a later input: compare after the loop
+                if (al["status"], al["kind"], al["nwarn"], al["lines"]) != (g["status"], g["kind"], g["nwarn"], g["lines"]):
+                    problems.append("input %d (first user of %s) is not reported as when compiled alone: %r vs %r"
+                                    % (k, os.path.basename(o), al["lines"], g["lines"]))
+                seen[o] = (p, g, al)
+            else:
+                want = REFUSED % shown
+                if g["lines"] != [want]:
+                    problems.append("input %d maps to %s, already used by an earlier input, and is not refused: printed %r, "
+                                    "expected %r" % (k, os.path.basename(o), g["lines"], want))
+        for o, (p, g, al) in seen.items():
+            now = sha(open(o, "rb").read()) if os.path.exists(o) else None
+            if now != al["sha"]:
+                problems.append("%s does not hold what its first input leaves when compiled alone (%s vs %s)"
+                                % (os.path.basename(o), now and now[:12], al["sha"] and al["sha"][:12]))
+        anybad = len(members) > len(seen) or any(al["status"] != "ok" for (_, _, al) in seen.values())
+        if (rc != 0) != anybad or rc not in (0, 1):
+            problems.append("exit status %d" % rc)
+        if problems:
+            ctx.fail("batch:shared-output-path", "%s (keep=%s): %s" % (name, keep, "; ".join(problems)), rp)
+
+    for keep in (False, True):
+        scenario("same-stem ok+ok", [(a, da, "same"), (b, db, "same")], keep)
+        scenario("same -o twice ok+ok", [(a, da, "one"), (b, db, "one")], keep, use_o=True)
+        scenario("same-stem ok+other+ok", [(a, da, "same"), (b, dc, "other"), (b, db, "same")], keep)
+        if f:
+            scenario("same-stem ok+failing", [(a, da, "same"), (f, db, "same")], keep)
+            scenario("same-stem failing+ok", [(f, da, "same"), (a, db, "same")], keep)
+            scenario("same -o twice failing+ok+ok", [(f, da, "one"), (a, db, "one"), (b, dc, "one")], keep, use_o=True)
+    # an input path without a file name is refused, the others are compiled
+    for o in os.listdir(oc):
+        os.unlink(os.path.join(oc, o))
+    pa, pb = put(da, "first", a), put(db, "second", b)
+    ins = [(pa, pa, os.path.join(oc, "first.pcap")), ("..", "..", os.path.join(oc, "none.pcap")), (pb, pb, os.path.join(oc, "second.pcap"))]
+    rc, res, so = invoke(ins, outdir=oc, cwd=oc, env=base_env())
+    ctx.count("batch:shared-output:no-file-name")
+    cnt["no-file-name"] = cnt.get("no-file-name", 0) + 1
+    if rc != 1 or res[0]["status"] != "ok" or res[2]["status"] != "ok" or "..: error: process_file: not a file name" not in so.splitlines():
+        ctx.fail("batch:no-file-name", "inputs first.rsyn .. second.rsyn: rc %d, stdout %r" % (rc, so[-400:]),
+                 {"programs": {"first": a["text"], "second": b["text"]}, "stdout": so[-800:], "rc": rc, "class_hint": "batch:no-file-name",
+                  "a": a["text"], "b": b["text"], "f": None})
 
 
 # ---------------------------------------------------------------- (iii) lexical edits and unused bindings
@@ -924,6 +1011,10 @@ def replay(ctx, rp):
     ctx.count("replay")
     d = common.workdir("c13r")
     shim = build_shim(ctx)
+    if str(rp.get("class", "")).startswith(("batch:shared-output", "batch:no-file-name")):
+        mk = lambda t, n: {"name": n, "text": t, "spl": True, "expect": "?", "origin": "replay"}
+        shared_output(ctx, d, mk(rp["a"], "a"), mk(rp["b"], "b"), mk(rp["f"], "f") if rp.get("f") else None)
+        return
     if "programs" in rp and str(rp.get("class", "")).startswith("ambient"):
         ps = [{"name": n, "text": rp["programs"][n], "spl": True, "expect": "?", "origin": "replay"} for n in rp["order"]]
         write_inputs(d, ps)
